@@ -414,7 +414,7 @@ def render_fixed(prog, ch, opts=None):
             if j > 0 and not forced and _breakable(body, j, False):
                 extra = ch.flag("fwrap")
             lit_cut = 0
-            if t.kind == "str" and len(t.text) > 2 and opts.get("lit_cuts", True):
+            if t.kind == "str" and len(t.text) > 2 and opts.get("lit_cuts", True) and (j == 0 or _breakable(body, j, False)):
                 lit_cut = ch.choose(len(t.text), "fcut")  # cut before char k of the literal
             if forced or extra:
                 if extra:
